@@ -474,6 +474,12 @@ func runPlain(ctx *bex.Ctx) {
 			"func f(x) [x].replaceList(l->f(x+1)); f(a)",
 			"func f(x) (g->g(x+1))(f); f(a)",
 			"func f(x) f.invoke([x+1]); f(a)",
+			// through the two-argument callbacks of the lazy stages (they run on the stack of the consumer)
+			"func f(x) [1].merge([2],(p,q)->f(p)).size(); f(a)",
+			"func f(x) [1,x].combine((p,q)->f(p+q)).size(); f(a)",
+			"func f(x) [1].cross([x],(p,q)->f(p+q)).size(); f(a)",
+			"func f(x) [1,x].compact((p,q)->f(p+q)).size(); f(a)",
+			"func f(x) try [1].merge([2],(p,q)->f(p)).size() catch 0; f(a)",
 		} {
 			if !mine() {
 				continue
@@ -489,7 +495,7 @@ func runPlain(ctx *bex.Ctx) {
 			checkCase(ctx, t, n, a, !strings.Contains(src, "try"))
 		}
 	}
-	ctx.SpaceDone("27 non-terminating recursion shapes: growing the value stack (plain, through let, closures, try, literals) and not growing it (through every closure-calling list/map method, invoke); 7 contexts each")
+	ctx.SpaceDone("32 non-terminating recursion shapes: growing the value stack (plain, through let, closures, try, literals) and not growing it (through every closure-calling list/map method, invoke); 7 contexts each")
 }
 
 // ---------------------------------------------------------------------------------------------
@@ -1123,7 +1129,9 @@ func copyMap(m map[string]any) map[string]any {
 
 func classifyCrash(repro map[string]any) string {
 	expr, _ := repro["expr"].(string)
-	if strings.HasPrefix(expr, "func f(x)") && strings.Contains(expr, "f(") {
+	// the shapes that die on the pinned tree: the recursive call sits in the function of map or accept
+	// (the two methods that run their function on a fresh value stack)
+	if strings.HasPrefix(expr, "func f(x)") && (strings.Contains(expr, ".map(e->f(") || strings.Contains(expr, ".accept(e->f(")) {
 		return "F05c-recursion-through-fresh-stacks"
 	}
 	return ""
